@@ -586,6 +586,11 @@ theorem offsetsFrom_get (o : Nat) (ns : List Nat) (k : Nat) (hk : k < ns.length)
       congr 1
       omega
 
+theorem offsetsFrom_length (o : Nat) (ns : List Nat) : (offsetsFrom o ns).length = ns.length := by
+  induction ns generalizing o with
+  | nil => rfl
+  | cons n ns ih => simp [offsetsFrom, ih]
+
 theorem sum_blocks_mod (bs : List (List α)) : ((bs.map (fun b => b.length * 8 + 8))).sum % 8 = 0 := by
   induction bs with
   | nil => rfl
